@@ -1,0 +1,52 @@
+/*  Verification hooks for the dns module (cargo feature "verif", off by default).
+ *  Add-only: thin wrappers around crate-private items so an external harness can
+ *  drive them; see /verif/DESIGN.md.
+ */
+use super::dnspkt;
+
+/// The crate-private DNS wire parser.
+pub fn parse(buf: &[u8]) -> Result<dnspkt::DNSPkt, String> {
+    super::parse::PktParser::new(buf).get_dns()
+}
+
+pub use super::cache::verif as cache;
+pub use super::outquery::verif_reset_timeout;
+
+/// The per-source REFUSED limiter used by the UDP listener.
+pub struct RateLimiter(super::IpRateLimiter);
+
+impl RateLimiter {
+    #[allow(clippy::new_without_default)]
+    pub fn new() -> Self {
+        Self(super::IpRateLimiter::new())
+    }
+    pub async fn check(&self, ip: std::net::IpAddr, cost: usize) -> bool {
+        self.0.check(ip, cost).await
+    }
+    /// (bucket capacity in tokens, refill rate in tokens per second)
+    pub const fn params() -> (u32, u32) {
+        super::bucket::GenericTokenBucket::verif_params()
+    }
+}
+
+type QidHook = Box<dyn FnMut(u16) -> u16 + Send>;
+type JitterHook = Box<dyn FnMut(std::time::Duration, std::time::Duration) -> std::time::Duration + Send>;
+
+pub static QID_HOOK: std::sync::Mutex<Option<QidHook>> = std::sync::Mutex::new(None);
+pub static JITTER_HOOK: std::sync::Mutex<Option<JitterHook>> = std::sync::Mutex::new(None);
+
+/// Upstream query id: the harness may replace the random choice.
+pub fn qid(random: u16) -> u16 {
+    match QID_HOOK.lock().unwrap().as_mut() {
+        Some(f) => f(random),
+        None => random,
+    }
+}
+
+/// Retry jitter in [0, max): the harness may replace the random choice.
+pub fn jitter(random: std::time::Duration, max: std::time::Duration) -> std::time::Duration {
+    match JITTER_HOOK.lock().unwrap().as_mut() {
+        Some(f) => f(random, max),
+        None => random,
+    }
+}
